@@ -181,8 +181,9 @@ fn ascii_trim(s: &str) -> &str {
 #[derive(Debug, Clone)]
 enum Expect {
     Missing,
-    /// acceptable texts (one, or two when the two readings of "trimmed" differ)
-    Text(Vec<String>),
+    /// acceptable texts (one, or two when the two readings of "trimmed" differ) and the
+    /// cell's own text (for the feature class of a finding key)
+    Text(Vec<String>, String),
     Number(f64),
     Bool(bool),
 }
@@ -191,16 +192,23 @@ impl Expect {
     fn accepts(&self, field: &str) -> bool {
         match self {
             Expect::Missing => field.is_empty(),
-            Expect::Text(v) => v.iter().any(|t| t == field),
+            Expect::Text(v, _) => v.iter().any(|t| t == field),
             Expect::Number(x) => field.parse::<f64>().map_or(false, |y| y.to_bits() == x.to_bits()),
             Expect::Bool(b) => field.eq_ignore_ascii_case(if *b { "TRUE" } else { "FALSE" }),
         }
     }
-    /// primary expected text (for messages and feature classes)
+    /// the cell's value text before trimming (feature classes)
+    fn original(&self) -> String {
+        match self {
+            Expect::Text(_, o) => o.clone(),
+            _ => self.primary(),
+        }
+    }
+    /// primary expected text (for messages)
     fn primary(&self) -> String {
         match self {
             Expect::Missing => String::new(),
-            Expect::Text(v) => v[0].clone(),
+            Expect::Text(v, _) => v[0].clone(),
             Expect::Number(x) => x.to_string(),
             Expect::Bool(b) => if *b { "TRUE" } else { "FALSE" }.to_string(),
         }
@@ -260,12 +268,12 @@ fn check_csv(c: &CsvCase, obs: &mut Obs) -> Verdict {
                     let a = s.trim().to_string();
                     let b = ascii_trim(s).to_string();
                     if a == b {
-                        Expect::Text(vec![a])
+                        Expect::Text(vec![a], s.clone())
                     } else {
-                        Expect::Text(vec![a, b])
+                        Expect::Text(vec![a, b], s.clone())
                     }
                 } else {
-                    Expect::Text(vec![s.clone()])
+                    Expect::Text(vec![s.clone()], s.clone())
                 }
             }
             Val::Num(t) => match t.parse::<f64>() {
@@ -279,14 +287,14 @@ fn check_csv(c: &CsvCase, obs: &mut Obs) -> Verdict {
     let max_row = grid.keys().map(|k| k.0).max().unwrap_or(0);
     let max_col = grid.keys().map(|k| k.1).max().unwrap_or(0);
     for e in grid.values() {
-        raw_texts.push(e.primary());
+        raw_texts.push(e.original());
     }
     let has_gap = (grid.len() as u64) < max_row as u64 * max_col as u64;
     let special = raw_texts.iter().any(|s| feature(s, wrap, enc) != "plain");
     // with no quote character, fields containing the delimiter or a line break are not representable
     let unrepresentable = wrap.is_none()
         && grid.values().any(|e| match e {
-            Expect::Text(v) => v.iter().any(|t| is_breaking(t)),
+            Expect::Text(v, _) => v.iter().any(|t| is_breaking(t)),
             _ => false,
         });
     obs.nontrivial(has_gap && special && !unrepresentable);
@@ -366,13 +374,25 @@ fn check_csv(c: &CsvCase, obs: &mut Obs) -> Verdict {
     // ---- decode in the selected encoding
     let grid_matches = |text: &str| -> Result<(), (String, String)> { compare_grid(text, wrap, enc, &grid, max_row, max_col) };
     let decoded = mcsv::decode(enc, &bytes);
-    // diagnosis for "the bytes are UTF-8 although another encoding was selected"
+    // weak oracle of the `unrepresentable` stratum: the value texts appear in order
+    // (delimiters, line breaks and blanks aside)
+    let squash = |s: &str| -> String { s.chars().filter(|ch| *ch != ',' && !ch.is_whitespace()).collect() };
+    let mut want = String::new();
+    for r in 1..=max_row {
+        for col in 1..=max_col {
+            if let Some(e) = grid.get(&(r, col)) {
+                want.push_str(&squash(&e.primary()));
+            }
+        }
+    }
+    // diagnosis for "the bytes are UTF-8 although another encoding was selected": as UTF-8
+    // the output satisfies the very oracle it fails in the selected encoding
     let utf8_instead = || -> bool {
         if enc == "utf_8" {
             return false;
         }
         match String::from_utf8(bytes.clone()) {
-            Ok(t) => Some(&t) != decoded.as_ref() && (unrepresentable || grid_matches(&t).is_ok()),
+            Ok(t) => Some(&t) != decoded.as_ref() && if unrepresentable { squash(&t) == want } else { grid_matches(&t).is_ok() },
             Err(_) => false,
         }
     };
@@ -386,16 +406,6 @@ fn check_csv(c: &CsvCase, obs: &mut Obs) -> Verdict {
     let text = text.strip_prefix('\u{feff}').map(|s| s.to_string()).unwrap_or(text);
 
     if unrepresentable {
-        // weak oracle: the value texts appear in order (delimiters, line breaks and blanks aside)
-        let squash = |s: &str| -> String { s.chars().filter(|ch| *ch != ',' && !ch.is_whitespace()).collect() };
-        let mut want = String::new();
-        for r in 1..=max_row {
-            for col in 1..=max_col {
-                if let Some(e) = grid.get(&(r, col)) {
-                    want.push_str(&squash(&e.primary()));
-                }
-            }
-        }
         if squash(&text) != want {
             if utf8_instead() {
                 return Verdict::fail(format!("{}/emits-utf-8", enc), "the output is UTF-8".to_string());
@@ -431,7 +441,7 @@ fn compare_grid(
     let sheet_feature = || -> String {
         let mut best = "plain".to_string();
         for e in grid.values() {
-            let f = feature(&e.primary(), wrap, enc);
+            let f = feature(&e.original(), wrap, enc);
             if f != "plain" {
                 // most specific first
                 let rank = |f: &str| match f {
@@ -461,7 +471,7 @@ fn compare_grid(
         if rec.len() != max_col as usize {
             let row_feature = (1..=max_col)
                 .filter_map(|cidx| grid.get(&(row, cidx)))
-                .map(|e| feature(&e.primary(), wrap, enc))
+                .map(|e| feature(&e.original(), wrap, enc))
                 .find(|f| f != "plain")
                 .unwrap_or_else(sheet_feature);
             return Err((
@@ -477,7 +487,7 @@ fn compare_grid(
                     Expect::Missing => (sheet_feature(), "missing-cell-not-empty"),
                     Expect::Number(_) => ("number".to_string(), "field-text"),
                     Expect::Bool(_) => ("boolean".to_string(), "field-text"),
-                    Expect::Text(_) => (feature(&e.primary(), wrap, enc), "field-text"),
+                    Expect::Text(..) => (feature(&e.original(), wrap, enc), "field-text"),
                 };
                 return Err((
                     format!("{}/{}", feat, mode),
